@@ -49,6 +49,8 @@ def _workload(rng, runner):
     only_addr = rng.random() < 0.3
     files = {}
     sections = None
+    names = gen.pick_names(rng)
+    RULE, BIN, ASM = names["rule"], names["bin"], names["asm"]
     feats = {f for f in rules.FEATURES if rng.random() < 0.55}
     # document faults need something to bite on: keep the feature set rich
     if rng.random() < 0.5:
@@ -58,35 +60,35 @@ def _workload(rng, runner):
         elf = gen.assemble(src)
         if elf is None:
             return None
-        files["in.bin"] = elf
+        files[BIN] = elf
         code_secs = [m["name"] for m in meta if not m["data"]]
         if not code_secs:
             return None
         if rng.random() < 0.5:
             k = rng.randrange(1, len(code_secs) + 1)
             sections = rng.sample(code_secs, k)
-        runner.materialise({"in.bin": elf})
-        rc, text, _err, _argv = gen.harness_objdump("in.bin", sections, cwd=runner.root)
+        runner.materialise({BIN: elf})
+        rc, text, _err, _argv = gen.harness_objdump(BIN, sections, cwd=runner.root)
         if rc != 0:
             return None
-        inp = "in.bin"
+        inp = BIN
     else:
         text, _ins = gen.gen_listing(rng)
-        files["in.s"] = text
-        inp = "in.s"
+        files[ASM] = text
+        inp = ASM
     dec = gen.decode_listing(text)
-    built = rules.build_found_rule(rng, dec, features=feats, sections=sections, binary=binary)
+    built = rules.build_found_rule(rng, dec, features=feats, sections=sections, binary=binary, macro_dir=names["macro_dir"])
     if built is None:
         return None
     doc, mfiles, margs, info = built
-    files["rule.yaml"] = gen.dump_yaml(doc)
+    files[RULE] = gen.dump_yaml(doc)
     for rel, md in mfiles.items():
         files[rel] = gen.dump_yaml(md)
     if entry == "lib":
-        op = {"op": "match", "rule": "rule.yaml", "input": inp, "type": "binary" if binary else "assembly", "ret": ret,
+        op = {"op": "match", "rule": RULE, "input": inp, "type": "binary" if binary else "assembly", "ret": ret,
               "search": search, "only_addr": only_addr, "macros": margs or None}
     else:
-        argv = ["-p", "rule.yaml", "-b" if binary else "-s", inp]
+        argv = ["-p", RULE, "-b" if binary else "-s", inp]
         if search == "all":
             argv.append("--all-matches")
         if only_addr:
@@ -94,7 +96,8 @@ def _workload(rng, runner):
         if margs:
             argv += ["--macros"] + margs
         op = {"op": "cli", "argv": argv}
-    info.update({"entry": entry, "type": "binary" if binary else "assembly", "ret": ret if entry == "lib" else "cli", "search": search})
+    info.update({"entry": entry, "type": "binary" if binary else "assembly", "ret": ret if entry == "lib" else "cli", "search": search,
+                 "rule_file": RULE, "input_file": inp})
     return files, op, doc, mfiles, info
 
 
@@ -123,7 +126,7 @@ def classify(oc):
     return "loud"
 
 
-def env_faults(rng, events, op, files, outcome):
+def env_faults(rng, events, op, files, outcome, rule_rel="rule.yaml", input_rel=None):
     """Every (seam call x applicable fault) for the seam calls of the control run."""
     out = []
     seen = set()
@@ -137,7 +140,7 @@ def env_faults(rng, events, op, files, outcome):
             if p in seen:
                 continue
             seen.add(p)
-            role = "rule" if p == "rule.yaml" else ("macrofile" if p in macro_files else "input")
+            role = "rule" if p == rule_rel else ("macrofile" if p in macro_files else "input")
             for kind in ("eacces", "emfile", "eio_open", "enomem_open", "eio_read"):
                 out.append({"kind": kind, "target": p, "label": f"{kind}:{role}"})
             out.append({"kind": "remove", "target": p, "label": f"enoent:{role}"})
@@ -166,7 +169,7 @@ def env_faults(rng, events, op, files, outcome):
             out.append({"kind": "killed", "stdout": "none", "label": "killed_nostdout:objdump"})
             out.append({"kind": "killed", "stdout": "full", "label": "killed_fullstdout:objdump"})
             # real peer failures: the binary is not something objdump accepts
-            inp = "in.bin"
+            inp = input_rel
             if inp in files:
                 data = util.dec_content(files[inp])
                 out.append({"kind": "remove", "target": inp, "label": "enoent:binary"})
@@ -227,8 +230,9 @@ def run_one(index, seed, runner, tier, opts):
     counters["workloads"] += 1
     wclass = f"{info['entry']}/{info['type']}/{info['ret']}/{info['search']}"
     counters["by_entry"][wclass] = 1
-    faults = env_faults(rng, ctl["events"], op, files, ctl["outcomes"][0])
-    for df in rules.doc_faults(rng, doc, mfiles, hints=info):
+    RULE = info["rule_file"]
+    faults = env_faults(rng, ctl["events"], op, files, ctl["outcomes"][0], rule_rel=RULE, input_rel=info["input_file"])
+    for df in rules.doc_faults(rng, doc, mfiles, rule_rel=RULE, hints=info):
         faults.append({"kind": "replace", "target": df["target"], "content": df["content"], "label": "D:" + df["label"], "klass": "D:" + df["klass"]})
     for f in faults:
         fop = copy.deepcopy(op)
@@ -258,7 +262,7 @@ def run_one(index, seed, runner, tier, opts):
                     "extra": {"info": info, "no_yaml_shrink": f["label"].startswith("D:")}}
             violations.append({"case": case, "violation": _violation(f, fop, oc, info)})
         if sample is None and cls == "loud" and f["label"].startswith("D:"):
-            sample = {"run": index, "seed": seed, "workload": wclass, "features": info["features"], "rule": files["rule.yaml"][:600],
+            sample = {"run": index, "seed": seed, "workload": wclass, "features": info["features"], "rule": files[RULE][:600],
                       "op": {k: v for k, v in op.items() if k != "faults"},
                       "fault": {k: (v if not isinstance(v, (dict, str)) or len(str(v)) < 300 else str(v)[:300] + "...") for k, v in f.items()},
                       "outcome": oc[:3] if oc[0] != "cli" else oc[:3], "events": [e for e in res["events"] if e["seam"] not in ("op_begin", "op_end")][:6]}
@@ -272,8 +276,8 @@ def run_one(index, seed, runner, tier, opts):
             fop["faults"] = [f]
             pre = copy.deepcopy(op)
             pre.pop("faults", None)
-            ops = [{"op": "write", "path": "rule.yaml", "content": gen.dump_yaml(nf_doc)}, pre,
-                   {"op": "write", "path": "rule.yaml", "content": files["rule.yaml"]}, fop]
+            ops = [{"op": "write", "path": RULE, "content": gen.dump_yaml(nf_doc)}, pre,
+                   {"op": "write", "path": RULE, "content": files[RULE]}, fop]
             runner.reset(files)
             res = runner.run(ops, seed)
             runner.reset(files)
